@@ -47,7 +47,22 @@ func main() {
 	verif := flag.String("verif", "", "verif dir (default: parent of the binary's dir)")
 	replay := flag.String("replay", "", "replay file written by an earlier run")
 	list := flag.Bool("list", false, "list properties")
+	manifest := flag.Bool("manifest", false, "print MANIFEST.json generated from the registry")
 	flag.Parse()
+	// The offline toolchain recipe (same as env.sh), so that registered
+	// commands do not depend on the caller's environment.
+	if _, err := os.Stat("/opt/veriftools/go1.26.8/bin/go"); err == nil {
+		os.Setenv("PATH", "/opt/veriftools/go1.26.8/bin:"+os.Getenv("PATH"))
+		os.Setenv("GOTOOLCHAIN", "local")
+	}
+	os.Setenv("GOFLAGS", "-mod=mod")
+	os.Setenv("GOPROXY", "off")
+	os.Setenv("GOSUMDB", "off")
+	os.Unsetenv("GOWORK")
+	if *manifest {
+		printManifest()
+		return
+	}
 
 	vdir := *verif
 	if vdir == "" {
